@@ -238,6 +238,9 @@ class IH5CrashEngine:
         ]
     }
 
+    timeouts = {"thorough": 2400}
+    MAX_POINTS = 1200
+
     def __init__(self):
         self.base = A.IH5StoreEngine()
 
@@ -461,6 +464,10 @@ class IH5CrashEngine:
                     else:
                         points.append((i, j, 0, 0))
                         points.append((i, j, 4, 0))
+        if len(points) > self.MAX_POINTS:
+            stride = len(points) / self.MAX_POINTS
+            agg["probes"]["crash_points_not_run_due_to_cap"] = len(points) - self.MAX_POINTS
+            points = [points[int(x * stride)] for x in range(self.MAX_POINTS)]
         n = 0
         sigs = set()
         for (i, j, mode, arg) in points:
